@@ -257,6 +257,43 @@ def b_ite(c, a, b):
     return z3.If(c, zint(a), zint(b))
 
 
+MODS = {}          # term id -> [(constant, x mod constant)] built so far on this path
+MODS_KEEP = []
+TOKEN_HOOKS = {}   # numeral-token helpers registered by stubs/ropestubs.py
+BOUNDS = {}     # z3 term id -> (lo, hi): interval facts established when the term was built (reset per path)
+
+
+def bounds_of(v):
+    if isinstance(v, bool):
+        return None
+    if isinstance(v, int):
+        return (v, v)
+    if is_sym(v):
+        b = BOUNDS.get(v.get_id())
+        return b[:2] if b is not None else None
+    return None
+
+
+def set_bounds(v, lo, hi):
+    if is_sym(v):
+        BOUNDS[v.get_id()] = (lo, hi, v)      # the term is kept alive so that its id is never reused
+    return v
+
+
+def type_range(bits, signed):
+    return (-(1 << (bits - 1)), (1 << (bits - 1)) - 1) if signed else (0, (1 << bits) - 1)
+
+
+def wrap_b(v, bits, signed, b):
+    """wrap with interval knowledge: no wrap term when the mathematical result provably fits the type."""
+    if not is_sym(v):
+        return wrap(v, bits, signed)
+    lo, hi = type_range(bits, signed)
+    if b is not None and b[0] >= lo and b[1] <= hi:
+        return set_bounds(v, b[0], b[1])
+    return set_bounds(wrap(v, bits, signed), lo, hi)
+
+
 def wrap(v, bits, signed):
     if not is_sym(v):
         m = 1 << bits
@@ -298,6 +335,9 @@ class Ctx:
     def __init__(self, prog, prefix=(), opts=None, base_store=None):
         self.prog = prog
         self.opts = opts or {}
+        BOUNDS.clear()
+        MODS.clear()
+        del MODS_KEEP[:]
         self.prefix = list(prefix)
         self.dpos = 0
         self.decisions = []
@@ -348,6 +388,7 @@ class Ctx:
             self.add_inv(z3.And(v >= -(1 << (bits - 1)), v < (1 << (bits - 1))))
         else:
             self.add_inv(z3.And(v >= 0, v < (1 << bits)))
+        set_bounds(v, *type_range(bits, signed))
         if record:
             self.nondets.append((name, 'int', v))
         return v
@@ -1031,6 +1072,10 @@ class Interp:
         if isinstance(v, str):
             return len(v)
         if is_sym(v):
+            if ctx.opts.get('dec_tokens') and TOKEN_HOOKS.get('has') and TOKEN_HOOKS['has'](v):
+                n = TOKEN_HOOKS['length'](v)
+                if n is not None:
+                    return n
             return z3.Length(v)
         if isinstance(v, Slice):
             return v.len
@@ -1137,6 +1182,10 @@ class Interp:
             return a == b
         if is_sym(a) or is_sym(b):
             if isinstance(a, str) or isinstance(b, str):
+                if ctx.opts.get('dec_tokens') and TOKEN_HOOKS.get('has'):
+                    sym, conc = (a, b) if is_sym(a) else (b, a)
+                    if conc == '' and TOKEN_HOOKS['has'](sym) and TOKEN_HOOKS['nonempty'](sym):
+                        return False      # a numeral token is never the empty string
                 return zstr(a) == zstr(b)
             if isinstance(a, bool) or isinstance(b, bool):
                 return zbool(a) == zbool(b)
@@ -1236,18 +1285,45 @@ def binop(I, o, x, y, xt, rt, ins=None):
         return float_binop(o, x, y)
     if k == 'int':
         bits, signed = I.prog.intinfo(rt)
+        bx, by = bounds_of(x), bounds_of(y)
         if o == '+':
-            return wrap(x + y, bits, signed)
+            return wrap_b(x + y, bits, signed, (bx[0] + by[0], bx[1] + by[1]) if bx and by else None)
         if o == '-':
-            return wrap(x - y, bits, signed)
+            return wrap_b(x - y, bits, signed, (bx[0] - by[1], bx[1] - by[0]) if bx and by else None)
         if o == '*':
-            return wrap(x * y, bits, signed)
+            b = None
+            if bx and by:
+                c = [bx[0] * by[0], bx[0] * by[1], bx[1] * by[0], bx[1] * by[1]]
+                b = (min(c), max(c))
+            return wrap_b(x * y, bits, signed, b)
         if o == '/' or o == '%':
             if is_sym(y):
                 if ctx.branch(y == 0):
                     raise GoPanic('divide-by-zero', ctx.cur_pos)
             elif y == 0:
                 raise GoPanic('divide-by-zero', ctx.cur_pos)
+            if not is_sym(y) and y > 0 and bx is not None and is_sym(x):
+                # truncating division / remainder by a positive constant
+                if bx[0] >= 0:
+                    q = x / y
+                    if o == '/':
+                        return set_bounds(q, bx[0] // y, bx[1] // y)
+                    r = set_bounds(x % y, 0, min(y - 1, bx[1]))
+                    # valid lemmas relating remainders of the same term by constants that divide one another
+                    # ((x mod c') mod c = x mod c when c | c'); they spare the solver a hard divisibility argument
+                    seen = MODS.setdefault(x.get_id(), [])
+                    for (c2, t2) in seen:
+                        if c2 != y and c2 % y == 0:
+                            ctx.add_inv(t2 % y == r)
+                        elif c2 != y and y % c2 == 0:
+                            ctx.add_inv(r % c2 == t2)
+                    seen.append((y, r))
+                    MODS_KEEP.append(x)
+                    return r
+                q = tdiv(x, y)
+                if o == '/':
+                    return set_bounds(q, -((-bx[0]) // y), max(bx[1], 0) // y)
+                return set_bounds(x - y * q, -(y - 1), y - 1)
             q = tdiv(x, y)
             if o == '/':
                 return wrap(q, bits, signed)
@@ -1324,7 +1400,7 @@ def convert(I, x, ft, tt):
         fb, fs = p.intinfo(ft)
         if is_sym(x) and fb <= bits and (fs == signed or (not fs and bits > fb)):
             return x
-        return wrap(x, bits, signed)
+        return wrap_b(x, bits, signed, bounds_of(x)) if is_sym(x) else wrap(x, bits, signed)
     if fk == 'string' and tk == 'slice':
         et = p.elem(tt)
         if p.kind(et) == 'int' and p.intinfo(et)[0] == 8:
@@ -1705,7 +1781,8 @@ def h_unop(I, fr, ins):
             fr.regs[ins['r']] = -x if not is_sym(x) else z3.fpNeg(x)
             return
         bits, signed = I.prog.intinfo(ins['t'])
-        fr.regs[ins['r']] = wrap(-x, bits, signed)
+        bx = bounds_of(x)
+        fr.regs[ins['r']] = wrap_b(-x, bits, signed, (-bx[1], -bx[0]) if bx else None) if is_sym(x) else wrap(-x, bits, signed)
         return
     if o == '^':
         bits, signed = I.prog.intinfo(ins['t'])
